@@ -31,7 +31,7 @@ FINDER_BOUNDS = {
     'find_rel_sets': 'every operator/modifier combination x subject sets of 1-2 (one of 3) of 8 ranges of a 9-character text, in insertion order and sorted, against every such reference range, reference set (also the empty one) - set tests vs. the appendix-A set semantics',
     'find_offset_accept': 'all cursor pairs in -(L+2)..L+2, both alignments, L = 9',
     'find_limit_slice': 'n <= 6 items, begin/end in -8..8',
-    'find_related_text': 'every operator over about 40 known selections of a 9-character text',
+    'find_related_text': 'every operator over about 40 known selections of a 9-character text; Equals from every known and unknown single selection and from every ordered triple of 6 selections (2 of them unknown)',
     'find_handles_setops': 'every pair of duplicate-free sequences of length <= 4 over 5 handles',
     'find_strip_ids': '0-4 annotations with data, one of them removed or none, strip annotation ids / data ids / both; every id, handle and temporary id looked up',
     'find_reindex_ids': 'every subset of 6 annotations removed, then reindex()',
